@@ -63,6 +63,9 @@ pub uninterp spec fn rceil(x: real) -> int;
 pub broadcast axiom fn ax_rfloor(x: real) ensures ((#[trigger] rfloor(x)) as real) <= x, x < ((rfloor(x) + 1) as real);
 pub broadcast axiom fn ax_rceil(x: real) ensures ((((#[trigger] rceil(x)) - 1)) as real) < x, x <= (rceil(x) as real);
 
+pub uninterp spec fn rpow(x: real, n: int) -> real;
+pub broadcast axiom fn ax_rpow_pos(x: real, n: int) ensures x > 0real ==> #[trigger] rpow(x, n) > 0real;
+pub broadcast axiom fn ax_rpow_10_m5() ensures #[trigger] rpow(10real, -5) == 1real / 100000real;
 pub uninterp spec fn f_neg(a: F64) -> F64;
 pub uninterp spec fn f_add(a: F64, b: F64) -> F64;
 pub uninterp spec fn f_sub(a: F64, b: F64) -> F64;
@@ -73,7 +76,7 @@ pub broadcast axiom fn ax_add(a: F64, b: F64) ensures fv(#[trigger] f_add(a, b))
 pub broadcast axiom fn ax_sub(a: F64, b: F64) ensures fv(#[trigger] f_sub(a, b)) == ext_add(fv(a), ext_neg(fv(b)));
 pub broadcast axiom fn ax_mul(a: F64, b: F64) ensures fv(#[trigger] f_mul(a, b)) == ext_mul(fv(a), fv(b));
 pub broadcast axiom fn ax_div(a: F64, b: F64) ensures fv(#[trigger] f_div(a, b)) == ext_div(fv(a), fv(b));
-pub broadcast group fl { ax_neg, ax_add, ax_sub, ax_mul, ax_div, ax_rfloor, ax_rceil }
+pub broadcast group fl { ax_neg, ax_add, ax_sub, ax_mul, ax_div, ax_rfloor, ax_rceil, ax_rpow_pos, ax_rpow_10_m5 }
 impl NegSpecImpl for F64 { open spec fn obeys_neg_spec() -> bool { true } open spec fn neg_req(self) -> bool { true } open spec fn neg_spec(self) -> F64 { f_neg(self) } }
 impl AddSpecImpl for F64 { open spec fn obeys_add_spec() -> bool { true } open spec fn add_req(self, o: F64) -> bool { true } open spec fn add_spec(self, o: F64) -> F64 { f_add(self, o) } }
 impl SubSpecImpl for F64 { open spec fn obeys_sub_spec() -> bool { true } open spec fn sub_req(self, o: F64) -> bool { true } open spec fn sub_spec(self, o: F64) -> F64 { f_sub(self, o) } }
@@ -101,6 +104,8 @@ impl F64 {
     #[verifier::external_body] pub fn abs(self) -> (r: F64) ensures fv(r) == ext_abs(fv(self)) { F64(self.0.abs()) }
     #[verifier::external_body] pub fn floor(self) -> (r: F64) ensures fv(self) is Fin ==> fv(r) == Ext::Fin(rfloor(fv(self)->Fin_0) as real), !(fv(self) is Fin) ==> fv(r) == fv(self) { F64(self.0.floor()) }
     #[verifier::external_body] pub fn ceil(self) -> (r: F64) ensures fv(self) is Fin ==> fv(r) == Ext::Fin(rceil(fv(self)->Fin_0) as real), !(fv(self) is Fin) ==> fv(r) == fv(self) { F64(self.0.ceil()) }
+    // powi: real power; only the table entries below are known to the solver (no overflow/underflow modelled)
+    #[verifier::external_body] pub fn powi(self, n: i32) -> (r: F64) ensures fv(self) is Fin && rv(self) != 0real ==> fv(r) == Ext::Fin(rpow(rv(self), n as int)) { F64(self.0.powi(n)) }
     #[verifier::external_body] pub fn c_infinity() -> (r: F64) ensures fv(r) == Ext::PosInf { F64(f64::INFINITY) }
     #[verifier::external_body] pub fn c_neg_infinity() -> (r: F64) ensures fv(r) == Ext::NegInf { F64(f64::NEG_INFINITY) }
     #[verifier::external_body] pub fn c_nan() -> (r: F64) ensures fv(r) == Ext::NaN { F64(f64::NAN) }
